@@ -41,7 +41,7 @@ def gen_cases(rng, tier):
     # corpus first: the negative-slope regression (fixed) and the tolerance edge
     cases.append([0, 0, 3, [fbits(-1.0), fbits(0.0)], fbits(-255.0), fbits(0.0)])
     cases.append([0, 0, 3, [fbits(-1.0), fbits(0.0)], fbits(0.0), fbits(0.0)])
-    n_grid = 1500 if tier == 'quick' else 40000
+    n_grid = 1500 if tier == 'quick' else 200000
     for _ in range(n_grid):
         k = rng.randrange(7)
         d = rng.randrange(11)
@@ -74,7 +74,7 @@ def gen_cases(rng, tier):
         dl, dh = {0: (lo + q, hi - q), 1: (lo - pad, hi - q), 2: (lo + q, hi + pad), 3: (lo - pad, hi + pad),
                   4: (lo, hi), 5: (lo - abs(lo) * 5e-7, hi + abs(hi) * 5e-7)}[place]
         cases.append([k, d, ck, cs, fbits(dl), fbits(dh)])
-    n_rand = 300 if tier == 'quick' else 10000
+    n_rand = 300 if tier == 'quick' else 50000
     special = [0, 1 << 63, 0x7FF0000000000000, 0xFFF0000000000000, 0x7FF8000000000000, 1, 0x7FEFFFFFFFFFFFFF, 0xFFEFFFFFFFFFFFFF]
     def rb():
         return rng.choice(special) if rng.random() < 0.2 else rng.getrandbits(64)
